@@ -52,11 +52,14 @@ Inductive action :=
 
 Record scenario := mkSc {
   sc_uid : N -> str;              (* fresh-id oracle *)
-  sc_decl : N -> hdecl;           (* what each registration call says *)
+  sc_decls : list hdecl;          (* what each registration call says; handler h = position h *)
   sc_init : list N;               (* handlers registered before the run (builtins, earlier Adds) *)
   sc_events : list event;         (* events in arrival order *)
   sc_threads : list (list rop);   (* the registrar goroutines' programs *)
   sc_recover : bool }.            (* Config.RecoverFunc != nil *)
+
+Definition no_decl : hdecl := mkHD [] false false false false.
+Definition sc_decl (sc : scenario) (h : N) : hdecl := nth (N.to_nat h) (sc_decls sc) no_decl.
 
 Inductive dstate :=
 | DIdle (n : nat)                        (* waiting for event n *)
@@ -351,7 +354,8 @@ Definition decl_okb (d : hdecl) : bool :=
 Definition wf_scb (sc : scenario) : bool :=
   let all_adds := sc_init sc ++ flat_map adds_of (sc_threads sc) in
   nodup_N all_adds
-  && forallb (fun h => decl_okb (sc_decl sc h)) (sc_init sc ++ flat_map handles_of (sc_threads sc))
+  && forallb decl_okb (sc_decls sc)
+  && forallb (fun h => h <? N.of_nat (length (sc_decls sc))) (sc_init sc ++ flat_map handles_of (sc_threads sc))
   && forallb (fun h => negb (hd_int (sc_decl sc h))) (flat_map adds_of (sc_threads sc))
   && forallb (fun e => negb (streqb (ev_cmd e) star)) (sc_events sc).
 
